@@ -43,7 +43,7 @@ OPS = ("read", "readn", "read1n", "stream", "release", "drain", "close", "shutdo
 READ_OPS = ("read", "readn", "read1n", "stream")
 DISP_OPS = ("release", "drain", "close")
 PROBE_BODY = b"probe-ok"
-SEQ_KINDS = [(fr, sv) for fr in ("cl", "chunked") for sv in ("ka", "close", "cut", "boom")] + [("eof", "close")]
+SEQ_KINDS = [(fr, sv) for fr in ("cl", "chunked") for sv in ("ka", "close", "cut", "boom")] + [("eof", "close"), ("cl", "reset")]
 
 
 class Hang(BaseException):
@@ -85,6 +85,8 @@ def wire(scn):
             second = (b"", True)
     if sv == "boom":
         second = ("BOOM", False)
+    if sv == "reset":
+        second = ("RESET", False)
     if sv == "never":
         return [(first, False)]
     return [(first, False), second]
@@ -167,6 +169,9 @@ class RSocket(vnet.VSocket):
             self._net.log.append(("FEED", self._cid, "boom"))
             self._net.injected.append(exc)
             raise exc
+        if data == "RESET":
+            self._net.log.append(("FEED", self._cid, "reset"))
+            raise ConnectionResetError(104, "Connection reset by peer")
         self._net.log.append(("FEED", self._cid, len(data), close))
         if not p.closed:
             if data:
@@ -294,7 +299,7 @@ class RNet(vnet.Net):
             # a server that still owes part of an earlier reply has sent it long before it sees the next request
             while vs._feeds:
                 d, c = vs._feeds.pop(0)
-                if d != "BOOM":
+                if d not in ("BOOM", "RESET"):
                     pending += d
                     close = close or c
         if close:
@@ -518,7 +523,7 @@ class Ctx:
         lr = r.length_remaining if r is not None else None
         io = "none"
         for e in new:
-            if e[0] == "RECV" or e[0] == "HANG" or (e[0] == "FEED" and e[2] == "boom"):
+            if e[0] == "RECV" or e[0] == "HANG" or (e[0] == "FEED" and e[2] in ("boom", "reset")):
                 io = "recv"
             elif e[0] in ("SHUTDOWN", "SHUTFAIL") and io == "none":
                 io = "shut" if e[0] == "SHUTDOWN" else io
@@ -670,28 +675,26 @@ def detect_fixes():
     t4 = run_conc({"fr": "cl", "sv": "ka", "mode": "stream"}, ["read"], ["release"], directed, probe=False)
     if t4["obs"][-1][14] <= 1:
         fixes.append("atomicrelease")
+    # close() while the reader waits for the socket, then the data arrives
+    t5 = run_conc({"fr": "cl", "sv": "ka", "mode": "stream"}, ["read"], ["close"], lambda en, n, last, pcs: last if last in en else en[0],
+                  probe=False)
+    if t5["obs"][-1][24] != "err:AttributeError":
+        fixes.append("closeunder")
     _DETECTED["v"] = sorted(fixes)
     return _DETECTED["v"]
 
 
-def _fixes_name(fixes):
-    return {(): "NoFixes", ("shutdown",): "FixShutdown", ("chunkresume",): "FixChunk", ("atomicrelease",): "FixAtomic",
-            ("chunkresume", "shutdown"): "FixShutdownChunk", ("atomicrelease", "shutdown"): "FixShutdownAtomic",
-            ("atomicrelease", "chunkresume"): "FixChunkAtomic",
-            ("atomicrelease", "chunkresume", "shutdown"): "AllFixes"}[tuple(sorted(fixes))]
+def _fixset(fixes):
+    return "FixSet == " + tlc.tla_val(set(fixes)) + "\n"
 
 
 def validate(traces, eager, fixes=()):
     """{id: ([(clause, position), ...], driftpos, field)} from TLC for a batch of traces."""
     if not traces:
         return {}
-    cfg = ("SPECIFICATION TSpec\nCONSTANTS Eager = %s\n MaxOps = 99\n Fixes <- %s\nCHECK_DEADLOCK FALSE\n"
-           % ("TRUE" if eager else "FALSE", "Tr" + _fixes_name(fixes)))
-    mod = ("---- MODULE RespLife_TraceRun ----\nEXTENDS RespLife_Trace\n"
-           + "\n".join('Tr%s == %s' % (_fixes_name(f), tlc.tla_val(set(f))) for f in
-                       [(), ("shutdown",), ("chunkresume",), ("atomicrelease",), ("chunkresume", "shutdown"),
-                        ("atomicrelease", "shutdown"), ("atomicrelease", "chunkresume"), ("atomicrelease", "chunkresume", "shutdown")])
-           + "\n====\n")
+    cfg = ("SPECIFICATION TSpec\nCONSTANTS Eager = %s\n MaxOps = 99\n Fixes <- FixSet\nCHECK_DEADLOCK FALSE\n"
+           % ("TRUE" if eager else "FALSE"))
+    mod = "---- MODULE RespLife_TraceRun ----\nEXTENDS RespLife_Trace\n" + _fixset(fixes) + "====\n"
     keep = [{k: t[k] for k in ("id", "fr", "sv", "mode", "pa", "pb", "steps", "obs", "stuck", "probe")} for t in traces]
     r = tlc.run("RespLife_TraceRun", cfg, workers=1, deadlock=False, heap="2g", timeout=1800,
                 files={"RespLife_TraceRun.tla": mod, "traces.json": json.dumps(keep, separators=(",", ":"))},
@@ -754,8 +757,11 @@ def _seq_worker(arg):
         out.append([sid, scn, list(ops), None, mism, len(tr["obs"]), tr["probe"]])
         traces.append(tr)
     v = validate(traces, True, fixes)
-    for rec in out:
+    for rec, tr in zip(out, traces):
         rec[3] = v[rec[0]]
+        rec.append(tr if (rec[3][0] or rec[3][1]) else None)      # the full trace is only needed for failing / drifting runs
+    if out:
+        out[0].append(sorted({o[22] for tr in traces for o in tr["obs"]}))
     return out
 
 
@@ -920,7 +926,7 @@ def run_conc(scn, pa, pb, chooser, max_steps=400, probe=True):
                     break
                 en = [n for n in live if s.enabled(n)]
                 vs = ctx.net.socks[1]() if 1 in ctx.net.socks else None
-                if vs is not None and vs._feeds and vs._feeds[0][0] != "BOOM":
+                if vs is not None and vs._feeds and vs._feeds[0][0] not in ("BOOM", "RESET"):
                     en.append("e")
                 if not en:
                     stuck = True
@@ -1008,10 +1014,10 @@ def dfs_schedules(scn, pa, pb, bound, cap):
 # ------------------------------------------------------------------------------------------ judging a trace
 CLAUSES = ["SlotReturnedExactlyOnce", "SlotNotLost", "NotPooledWhileOpen", "NeverHangs", "OnlyUrllib3Errors",
            "InterruptsPropagate", "NoOrphanSocket", "NoUseAfterRelease", "ShutdownActs", "CutNeverComplete",
-           "DisposalIdempotent", "ClosedIsStable", "ShutdownUnblocksReader", "NoDeadlock", "EveryoneFinishes", "ProbeServed"]
+           "DisposalIdempotent", "ClosedIsStable", "CloseIsFinal", "ShutdownUnblocksReader", "NoDeadlock", "EveryoneFinishes", "ProbeServed"]
 SERVES = {"SlotReturnedExactlyOnce": "C01", "SlotNotLost": "C01", "NotPooledWhileOpen": "C02", "NeverHangs": "C02",
           "OnlyUrllib3Errors": "C01", "InterruptsPropagate": "C01", "NoOrphanSocket": "C01", "NoUseAfterRelease": "C02",
-          "ShutdownActs": "C02", "CutNeverComplete": "C13", "DisposalIdempotent": "C01", "ClosedIsStable": "C01",
+          "ShutdownActs": "C02", "CutNeverComplete": "C13", "DisposalIdempotent": "C01", "ClosedIsStable": "C01", "CloseIsFinal": "C01",
           "ShutdownUnblocksReader": "C02", "NoDeadlock": "C02", "EveryoneFinishes": "C02", "ProbeServed": "C13"}
 
 
@@ -1085,17 +1091,18 @@ _FIND = [None]
 # --------------------------------------------------------------------------------------------------- stage 1
 SEQ_INV = ["TypeOK", "InvSlotAtMostOnce", "InvSlotNotLost", "InvNotPooledWhileOpen", "InvNeverHangs", "InvOnlyUrllib3Errors",
            "InvInterruptsPropagate", "InvNoOrphanSocket"]
-SEQ_PROP = ["PropNoUseAfterRelease", "PropShutdownActs", "PropCutNeverComplete", "PropDisposalIdempotent", "PropClosedIsStable"]
+SEQ_PROP = ["PropNoUseAfterRelease", "PropShutdownActs", "PropCutNeverComplete", "PropDisposalIdempotent", "PropClosedIsStable",
+            "PropCloseIsFinal"]
 CONC_INV = ["TypeOK", "InvSlotAtMostOnce", "InvSlotNotLost", "InvNotPooledWhileOpen", "InvNeverHangs", "InvOnlyUrllib3Errors",
             "InvShutdownUnblocksReader", "InvNoDeadlock"]
 CONC_PROP = SEQ_PROP + ["ShutdownLeadsToDone"]
-ALLFIX = ["atomicrelease", "chunkresume", "shutdown"]
+ALLFIX = ["atomicrelease", "chunkresume", "closeunder", "shutdown"]
 
 
 def _cfg(part, fixes, extra="", view=True, check=True):
     seq = part == "seq"
-    c = "SPECIFICATION %s\nCONSTANTS Eager = %s\n MaxOps = 99\n Fixes <- %s\nCHECK_DEADLOCK FALSE\n" % (
-        "SeqSpec" if seq else "ConcSpec", "TRUE" if seq else "FALSE", _fixes_name(fixes))
+    c = "SPECIFICATION %s\nCONSTANTS Eager = %s\n MaxOps = 99\n Fixes <- FixSet\nCHECK_DEADLOCK FALSE\n" % (
+        ("SeqCheckSpec" if check else "SeqSpec") if seq else ("ConcCheckSpec" if check else "ConcSpec"), "TRUE" if seq else "FALSE")
     if view:
         c += "VIEW %s\n" % ("SeqView" if seq else "ConcView")
     if check:
@@ -1104,47 +1111,76 @@ def _cfg(part, fixes, extra="", view=True, check=True):
     return c + extra
 
 
-def stage1(rep, fixes, workers):
-    """Exhaustive checks: repaired design must satisfy every rule; each named deviation alone must be refuted with the
-    expected rule (the rules bite); the Model of the code as found is checked with the deviations detected on the tree."""
-    from concurrent.futures import ThreadPoolExecutor
-    jobs = [("seq-repaired", "seq", ALLFIX, None), ("conc-repaired", "conc", ALLFIX, None),
-            ("seq-without-shutdown-repair", "seq", ["atomicrelease", "chunkresume"], {"PropNoUseAfterRelease", "InvOnlyUrllib3Errors"}),
-            ("seq-without-chunkresume-repair", "seq", ["atomicrelease", "shutdown"], {"InvOnlyUrllib3Errors"}),
-            ("conc-without-atomicrelease-repair", "conc", ["chunkresume", "shutdown"], {"InvSlotAtMostOnce"})]
+def stage1_jobs(fixes, quick):
+    """(name, part, fixes, expectation, pins): repaired design must satisfy every rule; each named deviation alone must be
+    refuted with the expected rule on a pinned scenario (the rules bite); the Model of the code as found is checked with the
+    deviations detected on the tree."""
+    wo = lambda x: [f for f in ALLFIX if f != x]
+    jobs = [("conc-repaired", "conc", ALLFIX, None, dict(pb1=quick)),
+            ("seq-repaired", "seq", ALLFIX, None, {}),
+            ("conc-without-atomicrelease-repair", "conc", wo("atomicrelease"), {"InvSlotAtMostOnce"},
+             dict(kinds=[("cl", "ka")], pa=[["read"]], pb=[["release"]])),
+            ("conc-without-closeunder-repair", "conc", wo("closeunder"), {"InvOnlyUrllib3Errors"},
+             dict(kinds=[("cl", "ka")], pa=[["read"]], pb=[["close"]])),
+            ("conc-without-shutdown-repair", "conc", wo("shutdown"), {"PropNoUseAfterRelease", "InvOnlyUrllib3Errors"},
+             dict(kinds=[("cl", "ka"), ("cl", "close")], pa=[["read"]], pb=[["shutdown"]])),
+            ("seq-without-shutdown-repair", "seq", wo("shutdown"), {"PropNoUseAfterRelease", "InvOnlyUrllib3Errors"},
+             dict(kinds=[("cl", "ka")], modes=["stream"])),
+            ("seq-without-chunkresume-repair", "seq", wo("chunkresume"), {"InvOnlyUrllib3Errors"},
+             dict(kinds=[("chunked", "ka")], modes=["stream"]))]
+    if True:
+        # design-level mutants of the repaired design: every remaining rule must bite as well
+        for brk, clause, kinds in (("drainswallow", {"InvInterruptsPropagate"}, [("cl", "boom")]),
+                                   ("noincomplete", {"PropCutNeverComplete"}, [("cl", "cut")]),
+                                   ("releaseearly", {"InvNotPooledWhileOpen", "PropNoUseAfterRelease", "PropCutNeverComplete"}, [("cl", "ka")]),
+                                   ("closenorelease", {"InvSlotNotLost", "PropDisposalIdempotent", "PropCloseIsFinal"}, [("cl", "ka")]),
+                                   ("closekeepsfp", {"PropCloseIsFinal"}, [("cl", "close")]),
+                                   ("shutdownnoop", {"PropShutdownActs"}, [("cl", "ka")])):
+            jobs.append((f"seq-mutant-{brk}", "seq", ALLFIX + ["break:" + brk], clause, dict(kinds=kinds, modes=["stream"])))
     if sorted(fixes) != ALLFIX:
-        jobs += [("seq-code-as-found", "seq", fixes, "any"), ("conc-code-as-found", "conc", fixes, "any")]
+        jobs += [("conc-code-as-found", "conc", fixes, "any", {}), ("seq-code-as-found", "seq", fixes, "any", {})]
+    return jobs
 
-    def one(job):
-        name, part, fx, expect = job
-        return job, tlc.run("MC_RespLife", _cfg(part, fx), workers=workers, heap="3g", expect_fail=True, timeout=3000)
 
-    with ThreadPoolExecutor(max(1, min(len(jobs), JOBS // max(1, workers)))) as ex:
-        results = list(ex.map(one, jobs))
+def run_stage1_job(job, workers):
+    name, part, fx, expect, pins = job
+    extra = ""
+    if pins.get("kinds"):
+        extra += "CONSTANTS %s <- PinScn\n" % ("SeqScenario" if part == "seq" else "ConcScenario")
+    if pins.get("pa"):
+        extra += "CONSTANTS ProgsA <- PinA\n ProgsB <- PinB\n"
+    elif pins.get("pb1"):
+        extra += "CONSTANTS ProgsB <- ProgsB1\n"
+    return tlc.run("MC_RespLifePin", _cfg(part, fx, extra), workers=workers, heap="3g", expect_fail=True, timeout=3000,
+                   files={"MC_RespLifePin.tla": _pin_module(pins.get("kinds"), pins.get("modes"), pins.get("pa"), pins.get("pb"), fixes=fx)})
+
+
+def stage1_digest(rep, results):
     info = {}
-    for (name, part, fx, expect), r in results:
+    for (name, part, fx, expect, pins), r in results:
         if r.error and not r.violated:
             raise tlc.MachineryError(f"RespLife stage 1 ({name}): {r.error}\n{r.out[-2000:]}")
         viol = sorted(set(r.violated))
         info[name] = {"fixes": fx, "violated": viol, "distinct": r.distinct, "generated": r.generated, "wall_s": round(r.wall, 1)}
         if expect is None:
-            rep.add_tlc(f"RespLife {name}: every rule, all fixes", r)
+            rep.add_tlc(f"RespLife {name}: every rule, all repairs", r)
             if viol:
                 raise tlc.MachineryError(f"RespLife stage 1: the repaired design ({name}) violates {viol} -- the specification is wrong")
         elif expect == "any":
-            rep.add_tlc(f"RespLife {name}: Model of the code as found (Fixes = {fx})", r)
+            rep.add_tlc(f"RespLife {name}: Model of the code as found (repairs present = {fx})", r)
             if not viol:
-                raise tlc.MachineryError(f"RespLife stage 1: the Model of the code as found ({name}, Fixes={fx}) violates nothing although "
+                raise tlc.MachineryError(f"RespLife stage 1: the Model of the code as found ({name}, repairs={fx}) violates nothing although "
                                          f"the probes found deviations")
         else:
+            rep.add_tlc(f"RespLife canary {name}", r)
             if not (set(viol) & expect):
                 raise tlc.MachineryError(f"RespLife stage 1 canary {name}: TLC reported {viol}, expected one of {sorted(expect)}")
     rep.extra["resplife_stage1"] = info
 
 
 # ------------------------------------------------------------------------------------- emission and replay
-def _pin_module(kinds=None, modes=None, pa=None, pb=None):
-    lines = ["---- MODULE MC_RespLifePin ----", "EXTENDS MC_RespLife"]
+def _pin_module(kinds=None, modes=None, pa=None, pb=None, fixes=()):
+    lines = ["---- MODULE MC_RespLifePin ----", "EXTENDS MC_RespLife", _fixset(fixes).strip()]
     ks = " \\/ ".join('(x.fr = "%s" /\\ x.sv = "%s")' % k for k in (kinds or [])) or "TRUE"
     ms = "x.mode \\in " + tlc.tla_val(set(modes)) if modes else "TRUE"
     lines.append(f"PinScn(x) == ({ks}) /\\ {ms}")
@@ -1158,7 +1194,7 @@ def _pin_module(kinds=None, modes=None, pa=None, pb=None):
 def emit_sequences(fixes, maxops, kinds, modes, workers):
     extra = "INVARIANT EmitSeq\nCONSTANTS SeqScenario <- PinScn\n"
     cfg = _cfg("seq", fixes, extra, view=False, check=False).replace("MaxOps = 99", f"MaxOps = {maxops}")
-    r = tlc.run("MC_RespLifePin", cfg, workers=workers, heap="4g", files={"MC_RespLifePin.tla": _pin_module(kinds, modes)},
+    r = tlc.run("MC_RespLifePin", cfg, workers=workers, heap="4g", files={"MC_RespLifePin.tla": _pin_module(kinds, modes, fixes=fixes)},
                 expect_fail=True, timeout=6000)
     seqs = tlc.tagged_json(r.out, "SEQ")
     if r.error or r.violated or not seqs:
@@ -1169,7 +1205,7 @@ def emit_sequences(fixes, maxops, kinds, modes, workers):
 def emit_schedules(fixes, kinds, pa, pb, workers):
     extra = "INVARIANT EmitSched\nCONSTANTS ConcScenario <- PinScn\n ProgsA <- PinA\n ProgsB <- PinB\n"
     cfg = _cfg("conc", fixes, extra, view=False, check=False)
-    r = tlc.run("MC_RespLifePin", cfg, workers=workers, heap="4g", files={"MC_RespLifePin.tla": _pin_module(kinds, None, pa, pb)},
+    r = tlc.run("MC_RespLifePin", cfg, workers=workers, heap="4g", files={"MC_RespLifePin.tla": _pin_module(kinds, None, pa, pb, fixes=fixes)},
                 expect_fail=True, timeout=6000)
     scheds = tlc.tagged_json(r.out, "SCHED")
     if r.error or r.violated or not scheds:
@@ -1228,6 +1264,8 @@ def _conc_worker(arg):
         m[6] = v[m[0]]
         # the full trace is only needed for failing / drifting runs
         out.append((m, tr if (m[6][0] or m[6][1]) else None))
+    if out:
+        out[0][0].append(sorted({o[k] for tr in traces for o in tr["obs"] for k in (22, 27)}))
     return out
 
 
@@ -1253,25 +1291,34 @@ def run(rep):
     _FIND[0] = _findings()
     fixes = detect_fixes()
     rep.extra["resplife_repairs_present_in_tree"] = fixes
-    workers = max(1, min(4, JOBS // 2))
-    # ---- stage 1
-    stage1(rep, fixes, workers)
+    import time as _t
+    from concurrent.futures import ThreadPoolExecutor
+    t0 = _t.time()
+    tm = rep.extra.setdefault("resplife_wall_s", {})
     stats = {"fail": {}, "known": {}, "sigs": set(), "more": 0, "drift": 0}
     labels_seen = set()
+    # ---- all TLC work that does not depend on the real code: stage 1, emission of call sequences and of schedules
+    plans = ([(2, SEQ_KINDS, ["stream"]), (1, SEQ_KINDS, ["preload", "preload_norel"])] if quick else
+             [(4, [k], ["stream"]) for k in SEQ_KINDS] + [(2, SEQ_KINDS, ["preload", "preload_norel"])])
+    pins = ([([("cl", "ka"), ("cl", "never")], [["read"]], [["shutdown"]]), ([("eof", "close")], [["read"]], [["release"]])] if quick else
+            [([("cl", "ka"), ("cl", "never"), ("cl", "cut"), ("chunked", "ka")], [["read"]], [["shutdown"], ["release"]]),
+             ([("eof", "close"), ("cl", "close")], [["read"], ["readn", "readn", "readn"]], [["shutdown"], ["release"]]),
+             ([("cl", "ka")], [["read"]], [["close"], ["shutdown", "close"]])])
+    w1 = 1 if quick else max(1, min(4, JOBS // 2))
+    with ThreadPoolExecutor(max(1, JOBS // w1)) as ex:
+        big = lambda job: max(w1, JOBS // 2) if job[0] == "seq-repaired" else w1       # the longest job of the phase
+        f1 = [(job, ex.submit(run_stage1_job, job, big(job))) for job in
+              sorted(stage1_jobs(fixes, quick), key=lambda j: j[0] != "seq-repaired")]
+        f2 = [(pl, ex.submit(emit_sequences, fixes, pl[0], pl[1], pl[2], w1 if quick else max(w1, JOBS // 2))) for pl in plans]
+        f3 = [(pn, ex.submit(emit_schedules, fixes, pn[0], pn[1], pn[2], w1 if quick else max(w1, JOBS // 2))) for pn in pins]
+        stage1_digest(rep, [(job, f.result()) for job, f in f1])
+        seq_emitted = [(pl, f.result()) for pl, f in f2]
+        sched_emitted = [(pn, f.result()) for pn, f in f3]
+    tm["tlc_stage1_and_emission"] = round(_t.time() - t0, 1)
     # ---- stage 2a: TLC-emitted call sequences, replayed and validated
-    plans = ([(2, SEQ_KINDS, ["stream"]), (1, [k for k in SEQ_KINDS], ["preload", "preload_norel"])] if quick else
-             [(4, SEQ_KINDS, ["stream"]), (2, SEQ_KINDS, ["preload", "preload_norel"])])
     items, emitted = [], 0
-    for maxops, kinds, modes in plans:
-        if quick:
-            seqs, r = emit_sequences(fixes, maxops, kinds, modes, workers)
-            rep.add_tlc(f"RespLife emission of call sequences (<= {maxops} calls, modes {modes})", r)
-        else:
-            seqs = []
-            for kind in kinds:
-                sq, r = emit_sequences(fixes, maxops, [kind], modes, max(workers, JOBS))
-                rep.add_tlc(f"RespLife emission of call sequences (<= {maxops} calls, {kind}, modes {modes})", r)
-                seqs += sq
+    for (maxops, kinds, modes), (seqs, r) in seq_emitted:
+        rep.add_tlc(f"RespLife emission of call sequences (<= {maxops} calls, {kinds if len(kinds) == 1 else 'all kinds'}, modes {modes})", r)
         for sq in seqs:
             emitted += 1
             ops = [h["op"] for h in sq["hist"]]
@@ -1280,18 +1327,22 @@ def run(rep):
             items.append((f"s{emitted}", {"fr": sq["fr"], "sv": sq["sv"], "mode": sq["mode"]}, ops, sq["hist"]))
     # seeded random longer sequences (no expected observations: judged by TLC only)
     rng = random.Random(rep.seed * 7919 + 17)
-    nrand = 600 if quick else 20000
+    nrand = 300 if quick else 20000
     for k in range(nrand):
         fr, sv = rng.choice(SEQ_KINDS)
         mode = "stream" if rng.random() < 0.85 else rng.choice(["preload", "preload_norel"])
         ops = [rng.choice(OPS) for _ in range(rng.randint(3, 6))]
         items.append((f"r{k}", {"fr": fr, "sv": sv, "mode": mode}, ops, None))
     rep.extra["resplife_tlc_sequences_emitted"] = emitted
-    res = [x for c in _pool_map(_seq_worker, [(c, fixes) for c in _chunks(items, 700 if quick else 1500)]) for x in c]
+    rng.shuffle(items)
+    res = [x for c in _pool_map(_seq_worker, [(c, fixes) for c in _chunks(items, max(200, min(1500, len(items) // JOBS + 1)))]) for x in c]
     if len(res) != len(items):
         raise tlc.MachineryError(f"RespLife: {len(items)} call sequences planned, {len(res)} replayed")
     replayed_tlc = 0
-    for sid, scn, ops, verdict, mism, nobs, probe in res:
+    for rec in res:
+        if len(rec) > 8:
+            labels_seen.update(rec.pop())
+    for sid, scn, ops, verdict, mism, nobs, probe, tr in res:
         rep.evaluations += 1
         rep.traces += 1
         if sid.startswith("s"):
@@ -1300,8 +1351,6 @@ def run(rep):
             rep.nontrivial.add(("seq", scn["fr"], scn["sv"], scn["mode"], tuple(ops)))
         case = {"part": "seq", "scn": scn, "ops": ops}
         if verdict[0] or verdict[1]:
-            tr = run_seq(scn, ops)
-            tr["id"] = sid
             judge(rep, tr, verdict, "seq", case, stats)
         elif mism:
             stats["drift"] += 1
@@ -1310,20 +1359,20 @@ def run(rep):
     if replayed_tlc != emitted:
         raise tlc.MachineryError(f"RespLife: TLC emitted {emitted} call sequences, {replayed_tlc} were replayed")
     rep.extra["resplife_sequences_replayed"] = len(res)
+    tm["replay_seq"] = round(_t.time() - t0, 1)
     # ---- stage 2b / 3: two threads
-    ckinds = [("cl", "ka"), ("cl", "close"), ("cl", "cut"), ("cl", "never"), ("chunked", "ka"), ("chunked", "cut"), ("chunked", "never"),
-              ("chunked", "close"), ("eof", "close")]
     dops = ["shutdown", "close", "release"]
-    progs_b = [[x] for x in dops] + [[x, y] for x in dops for y in dops]
+    if quick:
+        ckinds = [("cl", "ka"), ("cl", "close"), ("cl", "never"), ("chunked", "ka"), ("chunked", "cut"), ("eof", "close")]
+        progs_b = [[x] for x in dops] + [["shutdown", "close"], ["close", "release"]]
+    else:
+        ckinds = [("cl", "ka"), ("cl", "close"), ("cl", "cut"), ("cl", "never"), ("chunked", "ka"), ("chunked", "cut"), ("chunked", "never"),
+                  ("chunked", "close"), ("eof", "close")]
+        progs_b = [[x] for x in dops] + [[x, y] for x in dops for y in dops]
     progs_a = [["read"], ["readn", "readn", "readn"]]
     jobs, nsched = [], 0
-    pins = ([([("cl", "ka"), ("cl", "never")], [["read"]], [["shutdown"]]), ([("eof", "close")], [["read"]], [["release"]])] if quick else
-            [([("cl", "ka"), ("cl", "never"), ("cl", "cut"), ("chunked", "ka")], [["read"]], [["shutdown"], ["release"]]),
-             ([("eof", "close"), ("cl", "close")], [["read"], ["readn", "readn", "readn"]], [["shutdown"], ["release"]]),
-             ([("cl", "ka")], [["read"]], [["close"], ["shutdown", "close"]])])
-    cap = 250 if quick else 6000
-    for kinds, pa, pb in pins:
-        scheds, r = emit_schedules(fixes, kinds, pa, pb, workers if quick else max(workers, JOBS))
+    cap = 200 if quick else 6000
+    for (kinds, pa, pb), (scheds, r) in sched_emitted:
         rep.add_tlc(f"RespLife emission of complete schedules ({kinds}, reader {pa}, disposer {pb})", r)
         srng = random.Random(rep.seed * 104729 + len(jobs))
         if len(scheds) > cap:
@@ -1334,7 +1383,7 @@ def run(rep):
                          {"stuck": sc["stuck"], "obs": sc["fin"]}))
     rep.extra["resplife_tlc_schedules_emitted"] = nsched
     bound = 1 if quick else 2
-    dcap = 25 if quick else 400
+    dcap = 20 if quick else 400
     k = 0
     for fr, sv in ckinds:
         for pa in progs_a:
@@ -1342,13 +1391,15 @@ def run(rep):
                 k += 1
                 scn = {"fr": fr, "sv": sv, "mode": "stream"}
                 jobs.append(("dfs", f"d{k}", scn, pa, pb, bound, dcap))
-                jobs.append(("rnd", f"x{k}", scn, pa, pb, rep.seed * 1000003 + k, 6 if quick else 150))
+                jobs.append(("rnd", f"x{k}", scn, pa, pb, rep.seed * 1000003 + k, 4 if quick else 150))
     srng = random.Random(rep.seed + 5)
     srng.shuffle(jobs)
     per = max(1, len(jobs) // (JOBS * (1 if quick else 6)) + 1)
     cres = [x for c in _pool_map(_conc_worker, [(c, fixes) for c in _chunks(jobs, per)]) for x in c]
     got_sched = 0
     for m, tr in cres:
+        if len(m) > 10:
+            labels_seen.update(m.pop())
         tid, scn, pa, pb, steps, kind, verdict, mism, stuck, unreal = m
         rep.evaluations += 1
         rep.traces += 1
@@ -1366,6 +1417,12 @@ def run(rep):
     if got_sched != nsched:
         raise tlc.MachineryError(f"RespLife: TLC emitted {nsched} schedules (after sampling), {got_sched} were replayed")
     rep.extra["resplife_schedules_run"] = len(cres)
+    tm["conc"] = round(_t.time() - t0, 1)
+    want = {"Idle", "Done", "ChkFp", "CatClose", "CatRel", "RelTest", "RelPut", "QPut", "RelClear", "Book", "ClsBegin", "ClsConn", "ShTest",
+            "SockShut", "Recv", "BufWait"}
+    rep.extra["resplife_yield_points_reached"] = sorted(labels_seen)
+    if want - labels_seen and not rep.violations and not _MISSING:
+        raise tlc.MachineryError(f"RespLife: yield points never reached by any validated trace: {sorted(want - labels_seen)}")
     rep.extra["resplife_rule_failures_by_clause"] = stats["fail"]
     rep.extra["resplife_known_findings_by_id"] = stats["known"]
     rep.extra["resplife_model_drift_traces"] = stats["drift"]
